@@ -2,6 +2,9 @@ module kvharness
 
 go 1.24.2
 
-require github.com/KevoDB/kevo v0.0.0
+require (
+	github.com/KevoDB/kevo v0.0.0
+	github.com/cespare/xxhash/v2 v2.3.0
+)
 
 replace github.com/KevoDB/kevo => /repo
